@@ -61,12 +61,13 @@ func NewUniverse() *Universe {
 	u.declFun("s.sub", "(Str Int Int) Str") // s[a:b]
 	u.declFun("s.empty", "() Str")
 	u.axioms = append(u.axioms,
-		"(forall ((s Str)) (! (>= (s.len s) 0) :pattern ((s.len s))))",
+		"(forall ((s Str)) (! (and (>= (s.len s) 0) (<= (s.len s) 9223372036854775807)) :pattern ((s.len s))))",
 		"(= (s.len s.empty) 0)",
 		"(forall ((s Str)) (! (=> (= (s.len s) 0) (= s s.empty)) :pattern ((s.len s))))",
 		"(forall ((s Str) (i Int)) (! (and (<= 0 (s.at s i)) (<= (s.at s i) 255)) :pattern ((s.at s i))))",
 		"(forall ((a Str) (b Str)) (! (= (s.len (s.cat a b)) (+ (s.len a) (s.len b))) :pattern ((s.cat a b))))",
 		"(forall ((a Str)) (! (= (s.cat a s.empty) a) :pattern ((s.cat a s.empty))))",
+		"(forall ((a Str) (b Str) (i Int)) (! (= (s.at (s.cat a b) i) (ite (< i (s.len a)) (s.at a i) (s.at b (- i (s.len a))))) :pattern ((s.at (s.cat a b) i))))",
 		"(forall ((a Str)) (! (= (s.cat s.empty a) a) :pattern ((s.cat s.empty a))))",
 	)
 	u.lits[""] = "s.empty"
